@@ -1103,6 +1103,21 @@ def registry_rules(ctx, prog):
                      any(f.endswith("::thread_id") for f in Slice(lr).run(t["args"][1])["fields"]) for _bb, t in cs)
         ctx.ob("R6.register", "local.register", pc == (1, 1) and arg_ok, lr.loc(),
                f"global register calls per path={pc}; passes self.thread_id and the bag: {arg_ok}")
+    # a duplicate name never reaches the global registry: the thread's own table rejects it first (the local insert and its
+    # duplicate check dominate the global registration) - otherwise the failed build REPLACES the live event's bag in the global
+    # table before it panics, and everything observed through the first event vanishes from reports
+    lreg = prog.one("registries::LocalEventRegistry::register")
+    if lreg is None:
+        ctx.missing("R6.register", "LocalEventRegistry::register")
+    else:
+        ctx.fn(lreg)
+        gcall = [bb for bb, t in lreg.calls() if callee_key(t["callee"]).endswith("GlobalEventRegistry::register") and not lreg.blocks[bb].cleanup]
+        lins = [bb for bb, t in lreg.calls() if t["callee"].get("method") == "insert" and "HashMap" in callee_key(t["callee"]) and not lreg.blocks[bb].cleanup]
+        chk = [bb for bb, t in lreg.calls() if t["callee"].get("method") in ("is_none", "is_some") and not lreg.blocks[bb].cleanup]
+        domr = lreg.dominators(unwind=False)
+        okl = len(gcall) == 1 and bool(lins) and all(l_ in domr[gcall[0]] for l_ in lins) and (not chk or any(c_ in domr[gcall[0]] for c_ in chk))
+        ctx.ob("R6.register", "local.duplicate-check-before-global", okl, lreg.loc(),
+               f"local insert {lins} and its duplicate check {chk} dominate the global registration {gcall}: {okl}")
     # builders: the Arc registered is the Arc the event writes to
     for key, label in (("nm_impl::event_builder::EventBuilder<nm_impl::publish_model::Pull>::build", "pull"),):
         bs = [b for b in prog.bodies if b.path.endswith("::build") and "event_builder" in b.path and not b.is_closure]
